@@ -5,7 +5,7 @@ PROPS = {}
 
 PROPS["C07"] = {
     "title": "Result codecs round-trip every result and follow the documented layout",
-    "units": [{"name": "codec", "pkg": "lib", "run": "^TestC07"}],
+    "units": [{"name": "codec", "pkg": "lib", "run": "^TestC07", "scale_thorough": 2}],
     "rule": "rapid draws sequences of 0..12 heterogeneous vegeta.Result values (fields enumerated by reflection; "
             "hostile UTF-8 text without CR-LF pairs, boundary-weighted integers, ns timestamps 1970-2200 in assorted "
             "zones, nil/empty/large bodies, nil/empty/multi-valued canonical headers); each is encoded with gob, CSV "
@@ -28,8 +28,8 @@ PROPS["C07"] = {
 
 PROPS["C01"] = {
     "title": "Pacers keep the hit count on their declared schedule in closed loop",
-    "units": [{"name": "pacer", "pkg": "lib", "run": "^TestC01"},
-              {"name": "attackloop", "pkg": "libsync", "go": "go1.26.8", "run": "^TestC01AttackLoop", "shards_quick": 2, "shards_thorough": 8}],
+    "units": [{"name": "pacer", "pkg": "lib", "run": "^TestC01", "scale_thorough": 12},
+              {"name": "attackloop", "pkg": "libsync", "go": "go1.26.8", "run": "^TestC01AttackLoop", "shards_quick": 2, "shards_thorough": 8, "scale_thorough": 4}],
     "rule": "Four rapid sub-checks against a reference schedule S(t) written from the documented formulas: "
             "(totality) any int/float parameter values incl. range extremes, NaN/Inf, any elapsed/hits: no panic and "
             "the documented sign rules; (const-exact) constant pacer point-wise with big-integer arithmetic incl. the "
@@ -55,7 +55,7 @@ PROPS["C01"] = {
 
 PROPS["C10"] = {
     "title": "Report metrics equal an exact reference computation, in any order, incrementally",
-    "units": [{"name": "metrics", "pkg": "lib", "run": "^TestC10"},
+    "units": [{"name": "metrics", "pkg": "lib", "run": "^TestC10", "scale_thorough": 8},
               {"name": "reportcmd", "pkg": "main", "run": "^TestC10", "shards_quick": 2, "shards_thorough": 8}],
     "rule": "rapid draws result multisets (0..300 results, thorough also 1e4..1e5): equal/increasing/reversed/shuffled/"
             "clustered timestamps with duplicates, zero/tiny/typical/huge latencies (sum < 2^63), status 0 and 100..599 "
@@ -75,7 +75,7 @@ PROPS["C10"] = {
 
 PROPS["C11"] = {
     "title": "Latency percentiles are ordered and within a bounded rank error",
-    "units": [{"name": "percentiles", "pkg": "lib", "run": "^TestC11"}],
+    "units": [{"name": "percentiles", "pkg": "lib", "run": "^TestC11", "scale_thorough": 30}],
     "rule": "rapid draws latency multisets of n in {1..20} or log-uniform up to 5000 (thorough: up to 1e5) from eight "
             "families (uniform, log-normal, exponential, constant, few-valued, bimodal with gaps up to 1e9x, heavy tail, "
             "ramp) in six arrival orders (as drawn, sorted, reversed, zig-zag, shuffled blocks, reversed blocks). "
@@ -94,7 +94,7 @@ PROPS["C11"] = {
 
 PROPS["C12"] = {
     "title": "Histogram buckets partition the results",
-    "units": [{"name": "hist", "pkg": "lib", "run": "^TestC12"},
+    "units": [{"name": "hist", "pkg": "lib", "run": "^TestC12", "scale_thorough": 10},
               {"name": "reportcmd", "pkg": "main", "run": "^TestC12", "shards_quick": 2, "shards_thorough": 8}],
     "rule": "rapid draws 1..20 strictly increasing bounds (ns..hours, adjacent bounds 1 ns apart included, first bound "
             "0 or positive) and latencies exactly on, one below and one above every bound plus random ones and MaxInt64; "
@@ -113,7 +113,7 @@ PROPS["C12"] = {
 
 PROPS["C20"] = {
     "title": "Prometheus metrics equal the sums over observed results",
-    "units": [{"name": "prom", "pkg": "prom", "run": "^TestC20"},
+    "units": [{"name": "prom", "pkg": "prom", "run": "^TestC20", "scale_thorough": 4},
               {"name": "pump", "pkg": "main", "run": "^TestC20", "shards_quick": 1, "shards_thorough": 4},
               {"name": "prom-race", "pkg": "prom", "run": "^TestC20", "race": True, "shards_quick": 1, "shards_thorough": 4}],
     "rule": "rapid draws histories of 0..400 results (thorough also 2000..1e4) over 1..4 methods x 1..4 URLs x 1..6 status "
@@ -156,7 +156,7 @@ PROPS["C14"] = {
 
 PROPS["C19"] = {
     "title": "Command-line values mean what the manual says",
-    "units": [{"name": "flags", "pkg": "main", "run": "^TestC19"},
+    "units": [{"name": "flags", "pkg": "main", "run": "^TestC19", "scale_thorough": 10},
               {"name": "resolver", "pkg": "resolver", "run": "^TestC19", "shards_quick": 1, "shards_thorough": 4}],
     "rule": "rapid constructs flag values from an abstract meaning: -rate N[/D] with N in [1,2^62], D absent / bare "
             "unit / multiple / compound, the words 0 and infinity, malformed values; repeated -header lines with "
@@ -177,7 +177,7 @@ PROPS["C19"] = {
 
 PROPS["C09"] = {
     "title": "A truncated result stream decodes to a clean prefix",
-    "units": [{"name": "truncation", "pkg": "lib", "run": "^TestC09"},
+    "units": [{"name": "truncation", "pkg": "lib", "run": "^TestC09", "scale_thorough": 2},
               {"name": "encodecmd", "pkg": "main", "run": "^TestC09", "shards_quick": 2, "shards_thorough": 8}],
     "rule": "rapid draws streams of 1..25 heterogeneous results (C07 generator, one in eight with bodies up to 100 KiB), "
             "a recording writer notes the byte offset after each Encode call; gob and JSON streams are cut at EVERY byte "
@@ -197,8 +197,8 @@ PROPS["C09"] = {
 
 PROPS["C08"] = {
     "title": "Format auto-detection and transcoding never lose, duplicate or alter results",
-    "units": [{"name": "detect", "pkg": "lib", "run": "^TestC08"},
-              {"name": "encodecmd", "pkg": "main", "run": "^TestC08"}],
+    "units": [{"name": "detect", "pkg": "lib", "run": "^TestC08", "scale_thorough": 4},
+              {"name": "encodecmd", "pkg": "main", "run": "^TestC08", "scale_thorough": 4}],
     "rule": "rapid draws streams of 1..21 heterogeneous results whose first record differs from the rest (one in ten "
             "with a first record of 64..300 KiB, larger than every I/O buffer) in each encoding, read through a chunking "
             "reader (1 byte, primes, 4095/4096/4097, all at once, occasional (0,nil) reads); a negative class (empty, "
@@ -219,8 +219,8 @@ PROPS["C08"] = {
 
 PROPS["C13"] = {
     "title": "Reports over several files equal the report over their union",
-    "units": [{"name": "roundrobin", "pkg": "lib", "run": "^TestC13"},
-              {"name": "commands", "pkg": "main", "run": "^TestC13"}],
+    "units": [{"name": "roundrobin", "pkg": "lib", "run": "^TestC13", "scale_thorough": 5},
+              {"name": "commands", "pkg": "main", "run": "^TestC13", "scale_thorough": 4}],
     "rule": "rapid draws a result sequence (C07 generator, C06-consistent codes/errors, attack name carrying source file "
             "and index) split into 1..6 inputs of unequal lengths (>= 1 record; neighbouring inputs of equal length; "
             "'empty after the first record'), each with a drawn encoding, decoders explicit or auto-detected; the "
@@ -240,7 +240,7 @@ PROPS["C13"] = {
 
 PROPS["C06"] = {
     "title": "Each result faithfully describes its HTTP exchange",
-    "units": [{"name": "exchange", "pkg": "lib", "run": "^TestC06"}],
+    "units": [{"name": "exchange", "pkg": "lib", "run": "^TestC06", "scale_thorough": 2}],
     "rule": "rapid draws 1..3 targets per attack (real, random upper-case and invalid methods; http/https URLs; 0..6 "
             "headers with arbitrary key case, case-variant duplicates, multi-values, Host; bodies 0..200 KiB) and a "
             "scripted response per target: status 100..599 with real status texts, canonical response headers, body "
@@ -268,7 +268,7 @@ _ATTACK_SYNC_UNITS = [
 
 PROPS["C02"] = {
     "title": "Every started hit yields exactly one result and the attack ends cleanly",
-    "units": [{"name": "bubble", "pkg": "libsync", "go": "go1.26.8", "run": "^TestC02(Random|Exhaustive)"},
+    "units": [{"name": "bubble", "pkg": "libsync", "go": "go1.26.8", "run": "^TestC02(Random|Exhaustive)", "scale_thorough": 6},
               {"name": "stoprace", "pkg": "lib", "run": "^TestC02StopRace", "shards_quick": 2, "shards_thorough": 8},
               {"name": "pump", "pkg": "main", "run": "^TestC02", "shards_quick": 1, "shards_thorough": 4}],
     "rule": "Histories over the alphabet {tick, pacer-stop, complete(oldest/newest/any), consume, Stop by 1..8 callers, "
@@ -297,7 +297,7 @@ PROPS["C02"] = {
 
 PROPS["C03"] = {
     "title": "Requests in flight never exceed max-workers and free capacity is used",
-    "units": [{"name": "bubble", "pkg": "libsync", "go": "go1.26.8", "run": "^TestC02(Random|Exhaustive)", "env": {"VERIF_AS": "C03"}}],
+    "units": [{"name": "bubble", "pkg": "libsync", "go": "go1.26.8", "run": "^TestC02(Random|Exhaustive)", "env": {"VERIF_AS": "C03"}, "scale_thorough": 6}],
     "rule": "Same bubble histories as C02 (exhaustive up to length 4/6/7 over workers 0..3 x max-workers 1..3, random "
             "up to 200 actions with max-workers up to 64, any initial worker count incl. 0 and > max). Non-trivial = a "
             "tick while all max workers were busy (pending hit) or a stop cause with hits in flight; distinct = (config, "
@@ -317,7 +317,7 @@ PROPS["C03"] = {
 
 PROPS["C04"] = {
     "title": "The attack loop obeys its pacer and its duration",
-    "units": [{"name": "virtual", "pkg": "libsync", "go": "go1.26.8", "run": "^TestC04"},
+    "units": [{"name": "virtual", "pkg": "libsync", "go": "go1.26.8", "run": "^TestC04", "scale_thorough": 12},
               {"name": "cli", "pkg": "main", "run": "^TestC04", "shards_quick": 2, "shards_thorough": 8}],
     "rule": "rapid draws adversarial scripted pacers (1..120 answers: negative, zero, ns, ms, seconds..minutes, around and "
             "beyond the duration; then stop), durations (none or 1 ns..10 min), (workers, max-workers) in 0..8 x 1..8, "
